@@ -49,10 +49,11 @@ def _get_path(ns, dotted):
 
 
 class _Rewrite(ast.NodeTransformer):
-    def __init__(self, abstract, skipped, opaque):
+    def __init__(self, abstract, skipped, opaque, allow_break=False):
         self.abstract = abstract        # source text -> parameter name
         self.skipped = skipped          # ids of statements whose effect the translator dropped
         self.opaque = opaque
+        self.allow_break = allow_break  # `break` leaves the loop whose body is the slice: the slice ends, outputs as they stand
 
     def generic_visit(self, node):
         node = super().generic_visit(node)
@@ -66,6 +67,9 @@ class _Rewrite(ast.NodeTransformer):
                 key = None
             if key in self.abstract:
                 return ast.copy_location(ast.Name(id=self.abstract[key], ctx=ast.Load()), node)
+        if isinstance(node, ast.Break) and self.allow_break:
+            new = ast.parse("return ('end', locals())").body[0]
+            return ast.copy_location(new, node)
         if isinstance(node, ast.Return):
             value = node.value if node.value is not None else ast.Constant(value=None)
             value = self.visit(value)
@@ -116,7 +120,7 @@ def runner(name, module):
             break
         body.append(s)
     abstract = {k: (v if isinstance(v, str) else v[0]) for k, v in spec.get("abstract", {}).items()}
-    rw = _Rewrite(abstract, plan["skipped"], spec.get("opaque", []))
+    rw = _Rewrite(abstract, plan["skipped"], spec.get("opaque", []), spec.get("allow_break", False))
     pro = [rw.visit(s) for s in _tag(plan["prologue"])]
     sl = [rw.visit(s) for s in _tag(body)]
     outs = spec["out"]
@@ -168,6 +172,8 @@ def runner(name, module):
             ns.setdefault(c, val)
         for pair, comps in spec.get("unpack", {}).items():
             ns[pair] = tuple(inputs[c] for c in comps)
+        for a in spec.get("appends", ()):        # lists the slice appends to: fresh and empty; the output is the last value appended (None: nothing)
+            ns[a] = []
         for r in roots:
             ns.setdefault(r, AutoNS())
         for v in loopvars:
@@ -183,7 +189,10 @@ def runner(name, module):
             loc = res[1]
             vals = []
             for o in outs:
-                if o.endswith("[]"):
+                if o.endswith(".append") and o[:-7] in spec.get("appends", ()):
+                    lst = _get_path(loc, o[:-7])
+                    vals.append(lst[-1] if lst else None)
+                elif o.endswith("[]"):
                     base = _get_path(loc, o[:-2])
                     vals.append(list(base.values())[-1] if isinstance(base, dict) else base[0])
                 elif "[" in o:
